@@ -1013,11 +1013,16 @@ namespace BitSerializer::Convert::Utf
 			assert(mStartDataPtr <= mEndDataPtr);
 			if (mInputStream.eof())
 			{
-				// Handle uncompleted sequence at the end of file
-				if (result.ErrorCode == UtfEncodingErrorCode::UnexpectedEnd && Detail::HandleEncodingError(outStr, mEncodingErrorPolicy, mErrorMark))
+				// Handle uncompleted sequence at the end of file (including a tail that is shorter than one code unit)
+				const bool hasDanglingBytes = result.ErrorCode == UtfEncodingErrorCode::Success && mStartDataPtr != mEndDataPtr;
+				if (result.ErrorCode == UtfEncodingErrorCode::UnexpectedEnd || hasDanglingBytes)
 				{
-					mStartDataPtr = mEndDataPtr = mEncodedBuffer;
-					return EncodedStreamReadResult::Success;
+					if (Detail::HandleEncodingError(outStr, mEncodingErrorPolicy, mErrorMark))
+					{
+						mStartDataPtr = mEndDataPtr = mEncodedBuffer;
+						return EncodedStreamReadResult::Success;
+					}
+					return EncodedStreamReadResult::DecodeError;
 				}
 				return result.ErrorCode == UtfEncodingErrorCode::Success ? EncodedStreamReadResult::Success : EncodedStreamReadResult::DecodeError;
 			}
